@@ -617,7 +617,7 @@ def run(chk, ctx):
         for mode in ('linear', 'log'):
             for valued in ('array', 'spectrum'):
                 cases.append(gen_case(rng, dadi, tier, k=k, mode=mode, valued=valued))
-    nrand = 60 if tier == 'quick' else 1500
+    nrand = 60 if tier == 'quick' else 5000
     for _ in range(nrand):
         cases.append(gen_case(rng, dadi, tier))
     for k in (0, 7, 8):
